@@ -76,10 +76,11 @@ theorem fillFromList_eq (n : Nat) : ∀ (cs el : List Cand), el.length ≤ n →
           List.filter_filter]
         apply List.filter_congr
         intro a _
-        by_cases ha : el.contains a = true
+        have hc' : c ∈ el := by simpa using hc
+        by_cases ha : a ∈ el
         · simp [ha]
         · have hne : a ≠ c := by
-            intro e; rw [e] at ha; exact ha hc
+            intro e; rw [e] at ha; exact ha hc'
           simp [ha, hne]
       · rw [if_neg hc]
         have hlt : el.length < n := lt_of_le_of_ne hle hfull
@@ -94,7 +95,7 @@ theorem fillFromList_eq (n : Nat) : ∀ (cs el : List Cand), el.length ≤ n →
         intro a _
         by_cases hac : a = c
         · subst hac; simp
-        · simp [hac, List.contains_iff_mem, List.elem_eq_mem]
+        · simp [hac]
 
 /-! ### counting -/
 
@@ -109,5 +110,62 @@ theorem length_filter_not_mem {l J : List Cand} (hl : l.Nodup) (hJ : J.Nodup) (h
     exact ⟨fun h => h.2, fun h => ⟨hsub a h, h⟩⟩
   have := hperm.length_eq
   omega
+
+/-! ### sorting commutes with filtering on the value -/
+
+theorem insertDesc_of_ge (x : Cand × Rat) (s : Votes) (h : ∀ z ∈ s, z.2 ≤ x.2) : insertDesc x s = x :: s := by
+  cases s with
+  | nil => rfl
+  | cons y ys =>
+    have : ¬ x.2 < y.2 := not_lt.mpr (h y List.mem_cons_self)
+    simp [insertDesc, this]
+
+theorem insertDesc_filter_pos (P : Rat → Bool) (x : Cand × Rat) (hx : P x.2 = true) (s : Votes) (hs : Desc s) :
+    (insertDesc x s).filter (fun p => P p.2) = insertDesc x (s.filter (fun p => P p.2)) := by
+  induction s with
+  | nil => simp [insertDesc, hx]
+  | cons y ys ih =>
+    have hy' := List.pairwise_cons.mp hs
+    by_cases hlt : x.2 < y.2
+    · have e1 : insertDesc x (y :: ys) = y :: insertDesc x ys := by simp [insertDesc, hlt]
+      rw [e1]
+      by_cases hy : P y.2 = true
+      · rw [List.filter_cons_of_pos (by simpa using hy), List.filter_cons_of_pos (by simpa using hy), ih hy'.2]
+        simp [insertDesc, hlt]
+      · rw [List.filter_cons_of_neg (by simpa using hy), List.filter_cons_of_neg (by simpa using hy), ih hy'.2]
+    · have e1 : insertDesc x (y :: ys) = x :: y :: ys := by simp [insertDesc, hlt]
+      rw [e1, List.filter_cons_of_pos (by simpa using hx)]
+      symm
+      apply insertDesc_of_ge
+      intro z hz
+      have hz' := (List.mem_filter.mp hz).1
+      have hyx : y.2 ≤ x.2 := not_lt.mp hlt
+      rcases List.mem_cons.mp hz' with rfl | hz''
+      · exact hyx
+      · exact le_trans (hy'.1 z hz'') hyx
+
+theorem insertDesc_filter_neg (P : Rat → Bool) (x : Cand × Rat) (hx : ¬ P x.2 = true) (s : Votes) :
+    (insertDesc x s).filter (fun p => P p.2) = s.filter (fun p => P p.2) := by
+  induction s with
+  | nil => simp [insertDesc, hx]
+  | cons y ys ih =>
+    by_cases hlt : x.2 < y.2
+    · have e1 : insertDesc x (y :: ys) = y :: insertDesc x ys := by simp [insertDesc, hlt]
+      rw [e1, List.filter_cons, List.filter_cons, ih]
+    · have e1 : insertDesc x (y :: ys) = x :: y :: ys := by simp [insertDesc, hlt]
+      rw [e1, List.filter_cons_of_neg (by simpa using hx)]
+
+theorem sortDesc_filter_comm (P : Rat → Bool) (l : Votes) :
+    sortDesc (l.filter (fun p => P p.2)) = (sortDesc l).filter (fun p => P p.2) := by
+  induction l with
+  | nil => rfl
+  | cons x xs ih =>
+    by_cases hx : P x.2 = true
+    · rw [List.filter_cons_of_pos (by simpa using hx)]
+      simp only [sortDesc]
+      rw [ih, insertDesc_filter_pos P x hx _ (sortDesc_desc xs)]
+    · rw [List.filter_cons_of_neg (by simpa using hx)]
+      simp only [sortDesc]
+      rw [ih, insertDesc_filter_neg P x hx]
 
 end VL
